@@ -111,8 +111,14 @@ def run(ctx):
     def key_of(x):
         return (str(x.dtype.kind), tuple(x.tolist()))
 
+    def reload(path, what):
+        try:
+            return Database.from_hdf(path, hdf_node_path=node)
+        except Exception as exc:  # noqa: BLE001
+            ctx.violate("C11.reloadable", f"{sig} {what}", f"after {what}: the file cannot be reloaded: {exc!r}; ops={ops}")
+
     def compare(path, what):
-        back = Database.from_hdf(path, hdf_node_path=node)
+        back = reload(path, what)
         got, exp = dump(back), model_dump(model)
         ctx.event("compare", what, len(got))
         if got != exp:
@@ -184,7 +190,7 @@ def run(ctx):
                 f = done[0]
                 db.to_hdf(f, append=True, hdf_node_path=node)
                 ops.append(("restart", os.path.basename(f)))
-                db = Database.from_hdf(f, hdf_node_path=node)
+                db = reload(f, "restart")
                 ctx.fire("restart_from_file")
     # final: incremental file == single export of the in-memory database
     done = [f for f in files if exported[f] is True]
@@ -194,13 +200,13 @@ def run(ctx):
             problem.to_hdf(f, append=True)
         else:
             db.to_hdf(f, append=True, hdf_node_path=node)
-        inc = dump(Database.from_hdf(f, hdf_node_path=node))
+        inc = dump(reload(f, "final export"))
         single = str(ctx.scratch / "single.h5")
         if problem is not None:
             problem.to_hdf(single, append=False)
         else:
             db.to_hdf(single, append=False, hdf_node_path=node)
-        one = dump(Database.from_hdf(single, hdf_node_path=node))
+        one = dump(reload(single, "single export"))
         ctx.event("final", len(inc))
         if inc != one:
             diff = next(((a, b) for a, b in zip(inc, one) if a != b), (len(inc), len(one)))
